@@ -17,25 +17,25 @@ theorem lower_bridge (b : UInt8) : Generated.PureAscii.lower b = toLower b := by
     decide +kernel
   simpa using h b.toNat (UInt8.toNat_lt b)
 
-private theorem idx_drop {α : Type} (s : List α) (i : Nat) (x : α) (xs : List α)
+theorem idx_drop {α : Type} (s : List α) (i : Nat) (x : α) (xs : List α)
     (h : s.drop i = x :: xs) : idx? s (i : Int) = some x := by
   rw [idx?_eq_getElem?]
   have := List.getElem?_drop (xs := s) (i := i) (j := 0)
   rw [h] at this
   simpa using this.symm
 
-private theorem drop_succ_of {α : Type} (s : List α) (i : Nat) (x : α) (xs : List α)
+theorem drop_succ_of {α : Type} (s : List α) (i : Nat) (x : α) (xs : List α)
     (h : s.drop i = x :: xs) : s.drop (i + 1) = xs := by
   have : s.drop (i + 1) = (s.drop i).drop 1 := by simp [List.drop_drop]
   rw [this, h]; rfl
 
-private theorem drop_cases {α : Type} (s : List α) (i fuel : Nat) (h : i + (fuel + 1) = s.length) :
+theorem drop_cases {α : Type} (s : List α) (i fuel : Nat) (h : i + (fuel + 1) = s.length) :
     ∃ x xs, s.drop i = x :: xs := by
   cases hd : s.drop i with
   | nil => have := congrArg List.length hd; simp at this; omega
   | cons x xs => exact ⟨x, xs, rfl⟩
 
-private theorem equalFold_loop (s t : Bytes) : ∀ (fuel i : Nat), i + fuel = s.length → s.length = t.length →
+theorem equalFold_loop (s t : Bytes) : ∀ (fuel i : Nat), i + fuel = s.length → s.length = t.length →
     equalFold_loop1 s t fuel (i : Int) = Res.ok (lower (s.drop i) == lower (t.drop i)) := by
   intro fuel
   induction fuel with
@@ -83,7 +83,7 @@ theorem equalFold_bridge (s t : Bytes) :
 /-- The printable-ASCII predicate of `ascii.IsPrint` (RFC 20 section 4.2: 0x20 … 0x7E). -/
 def isPrintByte (c : UInt8) : Bool := !(decide (c < 32)) && !(decide (c > 126))
 
-private theorem isPrint_loop (s : Bytes) : ∀ (fuel i : Nat), i + fuel = s.length →
+theorem isPrint_loop (s : Bytes) : ∀ (fuel i : Nat), i + fuel = s.length →
     isPrint_loop1 s fuel (i : Int) = Res.ok ((s.drop i).all isPrintByte) := by
   intro fuel
   induction fuel with
@@ -110,7 +110,7 @@ theorem isPrint_bridge (s : Bytes) :
   have := isPrint_loop s s.length 0 (by omega)
   simpa [len] using this
 
-private theorem isASCII_loop (s : Bytes) : ∀ (fuel i : Nat), i + fuel = s.length →
+theorem isASCII_loop (s : Bytes) : ∀ (fuel i : Nat), i + fuel = s.length →
     isASCII_loop1 s fuel (i : Int) = Res.ok ((s.drop i).all (fun c => !(decide (c > 127)))) := by
   intro fuel
   induction fuel with
